@@ -959,7 +959,7 @@ func c04Groups(si *pwr.SignatureInfo, want []c04Hash) (string, string, bool) {
 
 func c04Builds(c *Ctx) error {
 	r := c.Rng.Fork()
-	n := c04N(c, 50, 500, 150)
+	n := c04N(c, 50, 400, 150)
 	thorough := c.Tier == "thorough"
 	for i := 0; i < n; i++ {
 		cr := r.Fork()
